@@ -129,8 +129,10 @@ class Effects:
         pos = a.posonlyargs + a.args
         for x, d in list(zip(pos[len(pos) - len(a.defaults):], a.defaults)) + \
                 [(x, d) for x, d in zip(a.kwonlyargs, a.kw_defaults) if d]:
+            # (a text default often stands for "name or object":
+            # distribution='hexapolar' also takes a Distribution instance)
             if isinstance(d, ast.Constant) and isinstance(
-                    d.value, (int, float, str, bool)) and d.value is not None:
+                    d.value, (int, float, bool)) and d.value is not None:
                 scalar.add(x.arg)
         alias = {p: p for p in params if p not in scalar}
         fresh = set()
